@@ -82,6 +82,28 @@ def fold_summary(fn: ast.FunctionDef, acc_hint: Optional[str] = None):
     return steps, rets, child, accsym
 
 
+def child_provider(model, fi):
+    """Where the children of a connection are evaluated: (function holding the loop over self._elements,
+    loop node, name of the list the combinator iterates if the evaluation lives in a helper)."""
+    for n in walk_ordered(fi.node):
+        if isinstance(n, ast.For) and norm(n.iter) == "self._elements":
+            return fi, n, None
+    # one level of helper: X = self._helper(f) / for Z in self._helper(f)
+    for c in calls_in(fi.node):
+        q = model.resolve_call(fi, c)
+        if q and q in model.funcs and q != fi.qname and isinstance(c.func, ast.Attribute) and dotted(c.func.value) == "self":
+            h = model.funcs[q]
+            for n in walk_ordered(h.node):
+                if isinstance(n, ast.For) and norm(n.iter) == "self._elements":
+                    # name bound to the helper's result (or the loop iterating it directly)
+                    st = parent(c)
+                    nm = None
+                    if isinstance(st, (ast.Assign, ast.AnnAssign)):
+                        nm = norm(st.targets[0] if isinstance(st, ast.Assign) else st.target)
+                    return h, n, nm or norm(c)
+    return None
+
+
 def check(ctx: Ctx) -> None:
     model = get_model(ctx.repo)
     ctx.modules_consulted.update({BASE, SER, PAR, CIR, PKG, "pyimpspec.circuit.circuit_builder"})
@@ -164,7 +186,9 @@ def check(ctx: Ctx) -> None:
             ctx.violation("R1.1", f"{qual}:init", mod, fi.node, f"{qual}: accumulator is not initialised to zero ({[norm(n.value) for n in inits]})")
         # empty connection → 0
         ctx.instance("R1.1", f"{qual}: empty connection is a short")
-        e0 = [n for n in fi.node.body if isinstance(n, ast.If) and norm(n.test) == "not self._elements"]
+        prov0 = child_provider(model, fi) if qual.endswith("_impedance") else None
+        empties = {"not self._elements"} | ({f"not {prov0[2]}"} if prov0 and prov0[2] else set())
+        e0 = [n for n in fi.node.body if isinstance(n, ast.If) and norm(n.test) in empties]
         if e0 and isinstance(e0[0].body[-1], ast.Return) and norm(e0[0].body[-1].value) in ("complex(0, 0) * f", "expr", "0 * f", "sympify('0')"):
             ctx.ok()
         else:
@@ -172,12 +196,35 @@ def check(ctx: Ctx) -> None:
     # every child is visited: loops iterate self._elements (or the list filled from it)
     for mod, qual in ((SER, "Series._impedance"), (PAR, "Parallel._impedance"), (SER, "Series.to_sympy"), (PAR, "Parallel.to_sympy")):
         fi = model.fi(mod, qual)
-        lps = [n for n in walk_ordered(fi.node) if isinstance(n, ast.For)]
         ctx.instance("R1.1", f"{qual}: iterates every child")
-        if any(norm(l.iter) == "self._elements" for l in lps):
-            ctx.ok()
-        else:
-            ctx.violation("R1.1", f"{qual}:iteration", mod, fi.node, f"{qual} does not iterate over self._elements")
+        prov = child_provider(model, fi)
+        if prov is None:
+            ctx.violation("R1.1", f"{qual}:iteration", mod, fi.node, f"{qual} does not iterate over self._elements (neither directly nor through a helper)")
+            continue
+        ctx.ok()
+        hfi, hloop, _nm = prov
+        # every child contributes: the arms of the kind dispatch are selected by isinstance tests only, and each arm yields a value
+        chain = next((n for n in hloop.body if isinstance(n, ast.If) and "isinstance(" in norm(n.test)), None)
+        if chain is not None:
+            cur = chain
+            extra = None
+            while True:
+                t = norm(cur.test)
+                pure = all(isinstance(x, ast.Call) and dotted(x.func) == "isinstance" for x in (cur.test.values if isinstance(cur.test, ast.BoolOp) else [cur.test]))
+                if not pure:
+                    extra = cur
+                if len(cur.orelse) == 1 and isinstance(cur.orelse[0], ast.If):
+                    cur = cur.orelse[0]
+                else:
+                    if not cur.orelse and qual.endswith("_impedance"):
+                        extra = extra or cur  # no final arm: children of the remaining kind are dropped
+                    break
+            ctx.instance("R1.1", f"{hfi.qual}: every child yields a value (dispatch by kind only)")
+            if extra is not None and qual.endswith("_impedance"):
+                ctx.violation("R1.1", f"{qual}:conditional-child", hfi.module, extra,
+                              f"{hfi.qual} evaluates a child only under `{norm(extra.test)}`: some children (e.g. an empty nested connection, i.e. a short) are left out of the composition")
+            else:
+                ctx.ok()
 
     # ---------------- R1.2 ---------------------------------------------------------
     _parallel_table(ctx, model)
@@ -187,7 +234,21 @@ def check(ctx: Ctx) -> None:
              (PAR, "Parallel._impedance", "elem_con", "num"), (SER, "Series.to_sympy", "element", "sym"),
              (PAR, "Parallel.to_sympy", "element", "sym")]
     cont_q, elem_q, conn_q = f"{BASE}:Container", f"{BASE}:Element", f"{BASE}:Connection"
+    dyn_sites = []
     for mod, qual, var, kind in sites:
+        fi0 = model.fi(mod, qual)
+        if kind == "num" and qual.endswith("._impedance"):
+            prov = child_provider(model, fi0)
+            if prov is not None and prov[0].qname != fi0.qname:
+                hv = prov[1].target.id if isinstance(prov[1].target, ast.Name) else var
+                dyn_sites.append((prov[0].module, prov[0].qual, hv, kind))
+                continue
+        dyn_sites.append((mod, qual, var, kind))
+    seen_sites = set()
+    for mod, qual, var, kind in dyn_sites:
+        if (mod, qual) in seen_sites:
+            continue
+        seen_sites.add((mod, qual))
         fi = model.fi(mod, qual)
         chain = None
         for n in walk_ordered(fi.node):
@@ -324,6 +385,24 @@ def check(ctx: Ctx) -> None:
             ctx.ok()
         else:
             ctx.violation("R1.5", f"{fi.qual}:route", fi.module, fi.node, f"{fi.qual} no longer builds its circuit with Parser().process(...)")
+    # the builder serialises its CURRENT contents on every call (no memoised code that ignores later additions)
+    from ..cfg import returns_not_passing
+    bts = model.fi("pyimpspec.circuit.circuit_builder", "CircuitBuilder._to_string")
+    ctx.instance("R1.5", "CircuitBuilder._to_string walks self._elements on every call")
+    badr = returns_not_passing(bts.node, lambda a: any(isinstance(x, ast.Attribute) and x.attr == "_elements" and dotted(x.value) == "self" for x in ast.walk(a)))
+    stores = [n for n in walk_ordered(bts.node) if isinstance(n, (ast.Assign, ast.AugAssign)) and any(
+        isinstance(t, ast.Attribute) and dotted(t.value) == "self" for t in (n.targets if isinstance(n, ast.Assign) else [n.target]))]
+    if badr or stores:
+        ctx.violation("R1.5", "CircuitBuilder._to_string:memoised", "pyimpspec.circuit.circuit_builder", (badr or stores)[0],
+                      "CircuitBuilder._to_string can return a remembered code without walking its current items: elements added to a nested context, or parameter "
+                      "changes of already added elements, are missing from the circuit that to_circuit() builds")
+    else:
+        ctx.ok()
+    ctx.instance("R1.5", "CircuitBuilder.to_circuit serialises on every call")
+    if returns_not_passing(cb.node, lambda a: any(isinstance(c, ast.Call) and dotted(c.func) == "self._to_string" for c in ast.walk(a))):
+        ctx.violation("R1.5", "CircuitBuilder.to_circuit:memoised", "pyimpspec.circuit.circuit_builder", cb.node, "CircuitBuilder.to_circuit can return without serialising the builder's current contents")
+    else:
+        ctx.ok()
     init = model.fi(CIR, "Circuit.__init__")
     n_ctor = 0
     for mname, mod in ctx.repo.modules.items():
@@ -434,6 +513,10 @@ def _parallel_table(ctx: Ctx, model) -> None:
     fi = model.fi(PAR, "Parallel._impedance")
     loop = next((n for n in fi.node.body if isinstance(n, ast.For) and norm(n.iter) == "self._elements"), None)
     if loop is None:
+        prov = child_provider(model, fi)
+        if prov is not None and prov[2] is not None:
+            loop = next((n for n in fi.node.body if isinstance(n, ast.For) and norm(n.iter) == prov[2]), None)
+    if loop is None:
         raise AnalysisError("Parallel._impedance: child loop not found")
     defs: Dict[str, str] = {}
     for n in walk_ordered(loop):
@@ -529,7 +612,7 @@ def _parallel_table(ctx: Ctx, model) -> None:
     ok = False
     for n in post:
         t = norm(n.test)
-        if ("num_open_paths == len(self._elements)" in t or "not path_impedances" in t or "len(path_impedances) == 0" in t) and \
+        if ("num_open_paths == len(" in t or "not path_impedances" in t or "len(path_impedances) == 0" in t) and \
                 any(isinstance(s, ast.Raise) for s in n.body):
             ok = True
     counted = seen.get("ALL_INF") is not None and any(isinstance(s, ast.AugAssign) and norm(s.target) == "num_open_paths" for s in seen["ALL_INF"].body)
